@@ -190,6 +190,12 @@ func (s *Solver) getProc(stage int) *proc {
 		p = &proc{name: "cvc5", argv: []string{"cvc5", "--incremental", "--lang=smt2", "--tlimit-per=" + strconv.Itoa(s.Timeout[2])}}
 	case 3:
 		p = &proc{name: "z3-new", argv: []string{"z3-new", "-in", "-t:" + strconv.Itoa(s.Timeout[3])}}
+	case 4:
+		// second chance with a long limit: time limits are wall-clock, so a loaded machine turns
+		// a 4 s query into an "unknown" on every short-limit back end
+		p = &proc{name: "z3-long", argv: []string{"z3", "-in", "-t:" + strconv.Itoa(20*s.Timeout[0])}}
+	case 5:
+		p = &proc{name: "cvc5-long", argv: []string{"cvc5", "--incremental", "--lang=smt2", "--tlimit-per=" + strconv.Itoa(6*s.Timeout[2])}}
 	}
 	if s.LogDir != "" {
 		f, _ := os.Create(fmt.Sprintf("%s/%s.%d.smt2", s.LogDir, p.name, os.Getpid()))
@@ -198,7 +204,7 @@ func (s *Solver) getProc(stage int) *proc {
 	if err := p.start(); err != nil {
 		p.dead = true
 	}
-	if stage == 1 || stage == 2 {
+	if stage == 1 || stage == 2 || stage == 5 {
 		p.send("(set-logic ALL)\n")
 	}
 	s.procs[stage] = p
@@ -323,10 +329,10 @@ func (s *Solver) Check(assertions []*Term, vars []*Term, wantModel bool) (Result
 	}
 	noFP := needsNoFP(s, assertions)
 	var lastErr string
-	order := []int{0, 1, 2, 3}
+	order := []int{0, 1, 2, 3, 4, 5}
 	if noFP && s.hardArith(assertions) {
 		// multiply/divide kernels: bit-blasting stalls, the integer encoding decides
-		order = []int{1, 0, 2, 3}
+		order = []int{1, 0, 2, 3, 4, 5}
 	}
 	for _, stage := range order {
 		if stage == 1 && !noFP {
@@ -358,6 +364,19 @@ func (s *Solver) Check(assertions []*Term, vars []*Term, wantModel bool) (Result
 		}
 	}
 	s.St.Unknowns++
+	if dir := os.Getenv("VERIF_DUMP_UNKNOWN"); dir != "" {
+		// standalone copy of the undecided query, for offline probing of back ends
+		tmp := &proc{emitted: map[int]bool{}}
+		var sb strings.Builder
+		for _, a := range assertions {
+			tmp.define(a, &sb)
+		}
+		for _, a := range assertions {
+			fmt.Fprintf(&sb, "(assert %s)\n", Ref(a))
+		}
+		sb.WriteString("(check-sat)\n")
+		_ = os.WriteFile(fmt.Sprintf("%s/unknown.%d.%d.smt2", dir, os.Getpid(), s.St.Unknowns), []byte(sb.String()), 0644)
+	}
 	return Unknown, nil, "unknown on all back ends: " + lastErr
 }
 
